@@ -412,7 +412,28 @@ func (x *Exec) trQuant(t *CQuant, env *Env) Val {
 		binders = append(binders, fmt.Sprintf("(%s %s)", name, x.so.sortOf(ty)))
 		// no range guards on bound variables: contracts quantify over mathematical integers
 	}
+	from := len(x.sc.asserts)
 	body := x.trBool(t.Body, ne)
+	// side facts emitted while translating the body must not mention the bound variables
+	if len(x.sc.asserts) > from {
+		kept := x.sc.asserts[:from]
+		for _, a := range x.sc.asserts[from:] {
+			leak := false
+			for _, v := range t.Vars {
+				_ = v
+			}
+			for _, b := range binders {
+				name := b[1:strings.Index(b, " ")]
+				if strings.Contains(a, name) {
+					leak = true
+				}
+			}
+			if !leak {
+				kept = append(kept, a)
+			}
+		}
+		x.sc.asserts = kept
+	}
 	q := "forall"
 	if !t.Forall {
 		q = "exists"
